@@ -371,7 +371,7 @@ mod helpers {
     /// Represents a WAC comment token.
     #[derive(Logos, Debug, Clone, Copy, PartialEq, Eq)]
     #[logos(error = Error)]
-    #[logos(skip r"[ \t\n\f]+")]
+    #[logos(skip r"[ \t\r\n\f]+")]
     pub enum CommentToken<'a> {
         /// A comment.
         #[regex(r"//[^\n]*")]
